@@ -238,8 +238,12 @@ func buildVariant(v Variant, files []*corpus.File, root, bindir, repo, harnessDi
 	wg.Wait()
 	// driver
 	var imports []string
+	seenDir := map[string]bool{}
 	for b := range bv.OK {
-		imports = append(imports, b)
+		if !seenDir[dirOf[b]] {
+			seenDir[dirOf[b]] = true
+			imports = append(imports, b)
+		}
 	}
 	sort.Strings(imports)
 	var sb strings.Builder
